@@ -114,18 +114,18 @@ func (b *TkhdBox) EncodeSW(sw bits.SliceWriter) error {
 	}
 	versionAndFlags := (uint32(b.Version) << 24) + b.Flags
 	sw.WriteUint32(versionAndFlags)
-	if b.Version == 0 {
-		sw.WriteUint32(uint32(b.CreationTime))
-		sw.WriteUint32(uint32(b.ModificationTime))
-		sw.WriteUint32(b.TrackID)
-		sw.WriteZeroBytes(4) // Reserved
-		sw.WriteUint32(uint32(b.Duration))
-	} else {
+	if b.Version == 1 {
 		sw.WriteUint64(b.CreationTime)
 		sw.WriteUint64(b.ModificationTime)
 		sw.WriteUint32(b.TrackID)
 		sw.WriteZeroBytes(4) // Reserved
 		sw.WriteUint64(b.Duration)
+	} else {
+		sw.WriteUint32(uint32(b.CreationTime))
+		sw.WriteUint32(uint32(b.ModificationTime))
+		sw.WriteUint32(b.TrackID)
+		sw.WriteZeroBytes(4) // Reserved
+		sw.WriteUint32(uint32(b.Duration))
 	}
 	sw.WriteZeroBytes(8) // Reserved
 	sw.WriteInt16(b.Layer)
